@@ -408,6 +408,14 @@ def run_thrift(chk, replay=None):
         stats['inline_cap'] = txt
         if not okc:
             chk.violation('translator: ' + txt, dict(kind='translator', output=txt), no_input=True)
+        # async CRASH / panic lines are left to C09 (F-09e) by `evaluate` -- but only where THIS input shows the oversized container
+        # count (gencheck.f09e_decide: sync model stops with size_limit / negative_size at a container header, async allocation
+        # model requests the buffer); any other async crash / panic is reported here with the case
+        for c, o in zip(cases, outs):
+            if c['mode'] != 'sync' and c['type'] != '@appex' and ((o or '').startswith('CRASH') or (o or '').startswith('panic')):
+                if not gencheck.f09e_decide(chk, gb, [c])[0]:
+                    failing.append((c, 'async decoder does not return an error (%s) and the input announces no container count beyond the '
+                                       'remaining bytes (not F-09e)' % (o or '')[:60], None, o))
         for i, (c, o) in enumerate(zip(cases, outs)):
             bad, why, tag = (judge_msg if c.get('level') == 'msg' else judge)(gb, c, o, preds.get(i))
             tags[tag] = tags.get(tag, 0) + 1
